@@ -1,6 +1,8 @@
 // apply(): execute one operation of the alphabet on the real container and on the reference model, with the
 // per-operation oracles of C01 (return values/positions), C05, C07, C08, C10.  Content comparison is in observe().
 #pragma once
+#include <sanitizer/asan_interface.h>
+
 #include <optional>
 
 #include "vec_ops.hpp"
@@ -60,6 +62,13 @@ inline void post(World &w, int i, const Snap &pre, const Eff &e, const char *opn
   if (!e.fresh_object) {
     if (!e.cap_may_shrink && cap < pre.cap) vf::fail("C07", "%s: capacity decreased %ld -> %ld", opname, pre.cap, cap);
     if (e.min_cap >= 0 && cap < e.min_cap) vf::fail("C07", "%s: capacity %ld < reserved %ld", opname, cap, e.min_cap);
+    // C18: whenever a dynamic vector has to grow (not through reserve / move / swap) the new capacity is at least
+    // 1.5 x the old one (rounded up), unless limited by its size_type
+    if (kDyn && e.min_cap < 0 && !e.cap_may_shrink && cap > pre.cap) {
+      const long lim = (long)std::min<unsigned long long>(std::numeric_limits<ST>::max(), 1ULL << 40);
+      const long want = std::min<long>((3 * pre.cap + 1) / 2, lim);
+      if (cap < want) vf::fail("C18", "%s: capacity grew %ld -> %ld, less than a factor 1.5 (size %ld -> %ld)", opname, pre.cap, cap, pre.size, sz);
+    }
     if (e.fit_rule && !e.cap_may_shrink && sz <= pre.cap) {
       if (v.data() != pre.data)
         vf::fail("C07", "%s: resulting size %ld fits old capacity %ld but data() changed", opname, sz, pre.cap);
@@ -500,6 +509,7 @@ inline void apply(World &w, const Op &op) {
     case COPY_CTOR_SELF: {
       const bool mv = op.k == MOVE_CTOR_SELF;
       void *dst = S.other();
+      ASAN_UNPOISON_MEMORY_REGION(dst, sizeof(V));  // may be the poisoned source of an earlier relocation
       vf::L().reset_counters();
       win([&] {
         typename V::allocator_type al;
